@@ -19,7 +19,10 @@ TECHNIQUE = ("runtime monitoring: time-stamp oracle over real tag-update message
              "(setattr hook on Tag records the tick of every value change)")
 RULE = ("seeded P-code generator (Block/End block(s), Mark, Simulate/Simulate off with and without unit, Watch, Alarm, "
         "Macro, Wait, thresholds, Base, run counter, Pause/Hold, UOD commands writing tags) x scripted FT01 and "
-        "totalizer trajectories x archiver on/off x optional user Pause/Hold/Stop/Start/Restart x report schedule "
+        "totalizer trajectories (always moving / never moving / flow phases of 1-12 ticks alternating with plateaus of "
+        "5-30 ticks / an early burst of 1-8 ticks followed by standstill, so that block starts and ends fall into "
+        "plateaus while outer scopes hold volume) x accumulator UOD (with_accumulated_volume, with_accumulated_volume + "
+        "with_accumulated_cv, with_accumulated_cv only; column volume 0.5/2/4 L) x archiver on/off x optional user Pause/Hold/Stop/Start/Restart x report schedule "
         "(incremental or snapshot report after random 1-7 ticks, through the real EngineMessageBuilder); virtual clock "
         "starting at 1.7e9 with 0.1 s ticks. distinct = shape hash of the method text + archiver flag; non-trivial = "
         "the change-window rule was evaluated for at least 4 different tags in that run")
@@ -44,7 +47,14 @@ REQUIRED = {"reports": 1500, "snapshot_reports": 300, "reported_values": 20000, 
             "monotone_checks": 15000, "window_checks": 10000, "window_checks_tag:Block": 100,
             "window_checks_tag:Mark": 100, "window_checks_tag:Accumulated Volume": 300,
             "window_checks_tag:Block Volume": 300, "window_checks_simulated": 40, "unmask_checks": 10,
-            "runs_with_archiver": 100, "runs_with_user_commands": 50}
+            "runs_with_archiver": 100, "runs_with_user_commands": 50,
+            # totalizer plateaus / accumulator UODs: judged Block Volume / Block CV values whose last change happened in
+            # a tick in which the totalizer stood still (= switch between the accumulators of two block scopes)
+            "runs_tot_plateaus": 200, "runs_tot_burst": 150, "runs_uod_cv": 100, "runs_uod_vol+cv": 200,
+            "window_checks_tag:Accumulated CV": 300, "window_checks_tag:Block CV": 300,
+            "block_acc_switch_at_rest": 150, "block_acc_switch_at_rest_to_nonzero": 60,
+            "block_acc_switch_at_rest_to_nonzero_tag:Block Volume": 30,
+            "block_acc_switch_at_rest_to_nonzero_tag:Block CV": 20}
 
 EPOCH = 1_700_000_000.0
 BLOCK_SITES = {"visit_BlockNode": "C16.block_tag_tick_number_at_block_start",
